@@ -459,3 +459,97 @@ def make_project(keys: dict[int, bytes], device_senders: dict[int, int | None], 
         itfs.append(W.PInterface(0x1F10 + n, "Tunneling", host=0x1F00, user_id=3 + n, password="pw", authentication="au", groups=[]))
     p.interfaces = itfs
     return p
+
+
+# ---------------------------------------------------------------------------
+# a real XKNX started through KNXIPInterface against the scripted tunnelling gateway (vlib/peers_tunnel.py, read-only)
+
+@contextmanager
+def sync_keyring_loading() -> Iterator[None]:
+    """`load_keyring` as used by KNXIPInterface reads the file in a worker thread; on the virtual loop the harness
+    rebinds that module-level name to a coroutine doing the same work synchronously (restored on exit)."""
+    import xknx.io.knxip_interface as mod
+    from xknx.secure.keyring import sync_load_keyring
+
+    original = mod.load_keyring
+
+    async def load_keyring(path: Any, password: str) -> Any:
+        return sync_load_keyring(path, password)
+
+    mod.load_keyring = load_keyring  # type: ignore[assignment]
+    try:
+        yield
+    finally:
+        mod.load_keyring = original  # type: ignore[assignment]
+
+
+def write_project_keyring(project: Any, rng: Any, path: str) -> None:
+    """Write (replace) a .knxkeys file from a keyring_writer.Project."""
+    from . import keyring_writer as W
+
+    with open(path, "wb") as fh:
+        fh.write(W.serialize(W.build_tree(project, rng), W.Style()))
+
+
+class InterfaceSession:
+    """One XKNX object, started / stopped / started again through the real interface against a scripted gateway."""
+
+    def __init__(self, transport: str, secure_config: Any, own_devices: tuple[int, ...] = ()) -> None:
+        from xknx.io import ConnectionConfig, ConnectionType
+
+        from .peers_tunnel import Gateway
+        from .vloop import new_loop
+
+        self.loop = new_loop()
+        self.gw = Gateway(self.loop)
+        self.transport = transport
+        self.gw_seq = 0
+        self.burst: list[bytes] = []  # frames that follow the next ConnectResponse back to back
+        self.right_after: list[bytes] = []  # frames that follow it 0..n ms later
+        self.out: list[bytes] = []  # every cEMI frame the client handed to the tunnel (L_Data.req octets)
+        self.telegrams: list[Telegram] = []
+        self.issues: list[Telegram] = []
+        ct = ConnectionType.TUNNELING_TCP if transport == "tcp" else ConnectionType.TUNNELING
+        self.xknx = XKNX(connection_config=ConnectionConfig(connection_type=ct, gateway_ip="10.0.0.2", local_ip="10.0.0.1",
+                                                            secure_config=secure_config))
+        self.xknx.telegram_queue.register_telegram_received_cb(self.telegrams.append)
+        self.xknx.telegram_queue.register_data_secure_group_key_issue_cb(self.issues.append)
+        self.gw.after_connect_response = self._burst
+        self.gw.listeners.append(self._on_event)
+
+    def push(self, raw: bytes, delay: float | None = None) -> None:
+        """Deliver a cEMI frame to the client now or later; the tunnelling sequence counter is taken at delivery time, so
+        frames scheduled for the same instant can not overtake each other's counters."""
+        if delay is None:
+            self.gw.send_tunnelling_request(self.gw_seq, raw)
+            self.gw_seq += 1
+        else:
+            # FIFO also for equal delays (the timer heap is not stable): frames leave the gateway in the order they were handed to it
+            due = max(self.loop.time() + delay, getattr(self, "_last_due", 0.0) + 1e-6)
+            self._last_due = due
+            self.loop.call_at(due, self.push, raw)
+
+    def _burst(self) -> None:
+        for raw in self.burst:
+            self.push(raw)
+        for k, raw in enumerate(self.right_after):
+            self.push(raw, delay=0.001 * k)
+        self.burst, self.right_after = [], []
+
+    def _on_event(self, _t: float, kind: str, info: dict[str, Any]) -> None:
+        if kind == "tx" and info.get("type") == "ConnectRequest":
+            self.gw_seq = 0  # a new connection counts from 0 again
+        if kind == "tx" and info.get("type") == "TunnellingRequest":
+            raw = bytes.fromhex(info["cemi"])
+            self.out.append(raw)
+            self.loop.call_later(0.01, lambda: self.push(bytes((CEMIMessageCode.L_DATA_CON.value,)) + raw[1:]))
+
+    async def settle(self, t: float = 0.3) -> None:
+        await asyncio.sleep(t)
+        await self.xknx.join()
+
+    def run(self, coro: Any, max_vtime: float = 900) -> Any:
+        return self.loop.run(coro, max_vtime=max_vtime)
+
+    def close(self) -> None:
+        self.loop.finish()
